@@ -286,7 +286,7 @@ func vpC14Insert(s []int, v int) []int {
 }
 
 func TestVP_C14_aggregate(t *testing.T) {
-	maxN := 64
+	maxN := 100
 	if kit.Thorough() {
 		maxN = 300
 	}
